@@ -96,6 +96,8 @@ func verifCfgVariant(cfg *progCfg) {
 		cfg.walLimit = 1
 	case 5:
 		cfg.extraSize = 1000 // MaxSize is not a multiple of the page size
+	case 6:
+		cfg.metaArea = 1 // the smallest pre-sized meta area
 	}
 }
 
